@@ -1,4 +1,5 @@
 import SamVerif.Model.Differ
+import SamVerif.Model.DifferText
 import Driver.Util
 /-! Protocol `diff` (C16): `diff <old> <new>` on comma-separated integer lists (`-` = empty) through
 `SamVerif.Differ.diff`; answers in the format of `harness/src/bin/c16.rs`. Other (server) lines of
@@ -19,6 +20,29 @@ def showChange : Int × Change Int → String
 def showScript (s : Script Int) : String :=
   if s.isEmpty then "-" else ";".intercalate (s.map showChange)
 
+def parsePos (s : String) : Pos :=
+  match s.splitOn ":" with
+  | [l, c] => (l.toNat!, c.toNat!)
+  | _ => (0, 0)
+
+def parseLocs (s : String) : List (Pos × Pos) :=
+  if s == "-" then [] else (s.splitOn ";").map fun r =>
+    match r.splitOn "-" with
+    | [a, b] => (parsePos a, parsePos b)
+    | _ => ((0, 0), (0, 0))
+
+def parseTable (s : String) : List (Int × Text) :=
+  if s == "-" then [] else (s.splitOn ",").filterMap fun e =>
+    match e.splitOn "=" with
+    | [k, v] => some (k.toInt!, bytesOfHex v)
+    | _ => none
+
+def rndOf (t : List (Int × Text)) (a : Int) : Text := ((t.find? (·.1 == a)).map (·.2)).getD []
+
+def showEdits (eds : List TextEdit) : String :=
+  if eds.isEmpty then "-" else ",".intercalate (eds.map fun e =>
+    s!"{e.start.1}:{e.start.2}-{e.stop.1}:{e.stop.2}={hexOfBytes e.text}")
+
 def step (_ : Unit) (line : String) : Unit × String :=
   match words line with
   | ["diff", a, b] =>
@@ -33,6 +57,19 @@ def step (_ : Unit) (line : String) : Unit × String :=
   | ["trace", a, b] =>
     match longestTrace (defaultFuel (parseList a) (parseList b)) (parseList a) (parseList b) with
     | some tr => ((), if tr.isEmpty then "-" else ",".intercalate (tr.map fun p => s!"{p.1}:{p.2}"))
+    | none => ((), "out-of-fuel")
+  -- text level: `iedits <locs> <old> <new> <id=hex,...>` = importEdits of the diff; answer in the
+  -- format of the harness' `mdiff`
+  | ["iedits", l, a, b, r] =>
+    let old := parseList a
+    let new := parseList b
+    match diff old new with
+    | some s => ((), showEdits (importEdits (parseLocs l) (rndOf (parseTable r)) s))
+    | none => ((), "out-of-fuel")
+  -- `aimp <locs> <old> <x> <id=hex>` = autoImportEdits
+  | ["aimp", l, a, x, r] =>
+    match autoImportEdits (parseLocs l) (rndOf (parseTable r)) (parseList a) x.toInt! with
+    | some eds => ((), showEdits eds)
     | none => ((), "out-of-fuel")
   | _ => ((), "bad-op")
 
